@@ -594,6 +594,18 @@ func (x *Exec) applyContract(st *State, fr *Frame, callee *ssa.Function, con *Co
 		g := x.evalSpec(en.E, env2)
 		st.assume(g.T)
 	}
+	// remember the results of the latest call of this callee on the path (callret/called in check clauses);
+	// only calls made by the function under verification itself
+	if fr != nil && fr.parent == nil {
+		nm := funcName(callee)
+		st.ghost["called:"+nm] = "true"
+		for i, r := range rets {
+			if r.K == KErr || r.K == KInt || r.K == KBool {
+				st.ghost[fmt.Sprintf("callret:%s:%d", nm, i)] = r.T
+				st.ghost[fmt.Sprintf("callretk:%s:%d", nm, i)] = fmt.Sprint(int(r.K))
+			}
+		}
+	}
 	switch len(rets) {
 	case 0:
 		return Val{K: KTuple}
